@@ -4,6 +4,7 @@ import harness
 from facts import (norm, call_name, short, subnodes, lit_value, str_lits_in, field_reads)
 from prov import Prov, has_field, has_call
 from mirq import MirQ
+from templates import enclosing_contexts
 from panics import site_keys
 import gram as G
 
@@ -321,6 +322,52 @@ def r08c(P, R):
     order = [k for _, k in kinds]
     ok = "Operation" in order and "Schema" in order and order.index("Operation") > max(i for i, k in enumerate(order) if k == "Schema")
     R.check("R08-c", "schema-before-operations", ok, "every add_file(Schema) precedes the first add_file(Operation)", "add_file order is %s" % order, loc=rc.loc())
+    # the selection-set visitor is applied to every selection, before any skip (get_boolean_variables must see the directives of
+    # every selection that check_skip_directive later evaluates)
+    vf = P.fn("nitrogql_printer::operation_type_printer::selection_set_visitor::visit_fields_in_selection_set_impl")
+    vlocals = {b["local"] for p in vf.params for b in subnodes(p) if b.get("k") == "Binding" and "FnMut" in str(p.get("t", "")) or "impl " in str(p.get("t", ""))}
+    vcalls = [(i, x) for i, (x, _) in enumerate(vf.nodes()) if x.get("k") == "Call" and isinstance(x.get("callee_e"), dict) is False and call_name(x) is None]
+    R.floor("R08-c", "visitor invocations in visit_fields_in_selection_set_impl", len(vcalls), 1)
+    for i, x in vcalls:
+        cond_ctx = [c[0] for c in enclosing_contexts(vf, i) if (c[0] == "arm" and c[1] is not None and c[1].get("src") == "Normal") or c[0] in ("if-then", "if-else", "let-else", "closure")]
+        R.check("R08-c", "visitor-every-selection", not cond_ctx and len(vcalls) == 1, "visitor(sel) runs once for every selection of the loop",
+                "the visitor is invoked conditionally (%s; %d call sites): a selection skipped by the seen-fragment test is never shown to "
+                "get_boolean_variables, so a @skip/@include variable used only there is missing from the branching condition and "
+                "check_skip_directive's expect(\"Type system error\") panics" % (cond_ctx, len(vcalls)), loc=vf.loc())
+    # loader: every access to Task.loaded_files uses the same key form
+    TASK = "graphql_loader::tasks::Task"
+    forms = {}
+    for f in P.fns.values():
+        if not f.path.startswith("graphql_loader::") or f.derived:
+            continue
+        pv = None
+        for c in f.walk():
+            if c.get("k") == "MethodCall" and c["method"] in ("insert", "get", "contains_key", "remove", "entry", "get_mut") and c["args"] \
+                    and any(y.get("k") == "Field" and y.get("field") == "loaded_files" and norm(y.get("adt", "")) == TASK for y in subnodes(c["recv"])):
+                pv = pv or Prov(f)
+                norms = tuple(sorted(short(a[1]) for a in pv.atoms(c["args"][0]) if a[0] == "call" and a[1] in P.fns))
+                forms.setdefault(norms, []).append("%s.%s" % (f.name, c["method"]))
+    R.floor("R08-c", "Task.loaded_files accesses", sum(len(v) for v in forms.values()), 4)
+    R.check("R08-c", "loaded-files-key-form", len(forms) == 1, "all accesses use the same key form %s" % (list(forms) or "?"),
+            "Task.loaded_files is accessed with differently normalised keys %s: a file registered under one form is not found under the other and "
+            "get_root_document's expect(\"Root file should be present\") panics for such a file name" % forms)
+    # string slices: range bounds are byte offsets, never char counts
+    nslices = 0
+    for f in P.fns.values():
+        if "::tests" in f.path or f.derived:
+            continue
+        pv = None
+        for x in f.walk():
+            if x.get("k") == "Index" and ("str" in str(x["e"].get("t", "")) or "String" in str(x["e"].get("t", ""))) and "Vec<" not in str(x["e"].get("t", "")):
+                pv = pv or Prov(f)
+                a = pv.data_atoms(x["idx"])
+                nslices += 1
+                calls = {c[1].split("::")[-1] for c in a if c[0] == "call"}
+                bad = "enumerate" in calls and "chars" in calls
+                R.check("R08-c", "str-slice-bounds:%s" % short(f.path), not bad, "slice bounds are byte offsets (%s)" % sorted(calls & {"char_indices", "len", "find"}),
+                        "%s slices a string with bounds counted by chars().enumerate(): with a multi-byte character before the identifier the "
+                        "bound is not a char boundary (panic) or the slice is the wrong text" % f.path, loc=f.loc())
+    R.floor("R08-c", "string slice sites", nslices, 2)
     # skip_chars: byte offset from len_utf8
     sk = P.fn("nitrogql_utils::chars::skip_chars")
     ms = [c["method"] for c in sk.walk() if c.get("k") == "MethodCall"]
